@@ -450,3 +450,13 @@ Proof.
     f_equal. pose proof (Z.div_mod (sbval a) (sbval d) Hnz). lia.
   - rewrite Hr. apply Z.mod_bound_or. exact Hnz.
 Qed.
+
+(* dividend wider than the divisor, unsigned, divisor above 2^(n-1): the shifted remainder
+   loses its top bit (long_division.rs:208) *)
+Lemma longdiv_mixed_unsigned_counterexample :
+  exists a d q r, length a = 8%nat /\ length d = 4%nat /\ bval d <> 0 /\
+    long_division false a d = Ok (q, r) /\ bval q <> bval a / bval d.
+Proof.
+  exists (bits_of 8 85), (bits_of 4 11), (bits_of 8 0), (bits_of 4 5).
+  repeat split; try reflexivity; vm_compute; discriminate.
+Qed.
